@@ -399,7 +399,17 @@ pub fn run_case(rt: &tokio::runtime::Runtime, dir: &Path, case: &Value, n: usize
 		}
 	};
 	phase("write");
-	let (write_ok, write_err) = produce(rt, case, &src, &path);
+	// (r2d2 gives up waiting for an SQLite connection after 30 s: on a heavily loaded machine that is the MACHINE, not the
+	// code under test -- such an attempt is repeated; if it keeps happening the event says so and the driver reports a tool error)
+	let env_timeout = |e: &str| e.contains("timed out waiting for connection");
+	let (mut write_ok, mut write_err) = produce(rt, case, &src, &path);
+	for _ in 0..4 {
+		if write_ok || !env_timeout(&write_err) {
+			break;
+		}
+		std::thread::sleep(std::time::Duration::from_secs(3));
+		(write_ok, write_err) = produce(rt, case, &src, &path);
+	}
 	phase("decode");
 	let mut ev = json!({"ev":"case","id":n,"origin":case["origin"].as_str().unwrap_or("writer"),"fmt":src.fmt,"tf":src.tf,"tc":src.tc,
 		"tiles":src.tiles_json(),"write_ok":write_ok as u8,"write_err":write_err,"choices":case.get("choices").cloned().unwrap_or(json!({})),
@@ -418,7 +428,17 @@ pub fn run_case(rt: &tokio::runtime::Runtime, dir: &Path, case: &Value, n: usize
 			Some(sv) => format!("http://127.0.0.1:{}/{}", sv.port, path.file_name().unwrap().to_str().unwrap()),
 			None => path.to_str().unwrap().to_string(),
 		};
-		match catch(|| rt.block_on(get_reader(&p))) {
+		let mut got = catch(|| rt.block_on(get_reader(&p)));
+		for _ in 0..4 {
+			match &got {
+				Ok(Err(e)) if env_timeout(&format!("{e:#}")) => {
+					std::thread::sleep(std::time::Duration::from_secs(3));
+					got = catch(|| rt.block_on(get_reader(&p)));
+				}
+				_ => break,
+			}
+		}
+		match got {
 			Ok(Ok(reader)) => {
 				let many = only == "C02" || only == "all";
 				let boxes = if only == "C03" {
